@@ -6,6 +6,7 @@ from ..core import Phase, Result
 from .. import grammar as G
 from .. import reference as R
 from ..recarray import install, uninstall
+from ..represent import Rep, tapes
 from ..util import attempt, same_array, same_value
 
 import fsic
@@ -216,6 +217,7 @@ def check_rejected(case):
     T = L + 1
     bases = case.get('bases') or [[1.0, 2.0, 0.5, 4.0]]
     res.nontrivial = True
+    rep = Rep(case.get('rep'))      # the same option values as NumPy scalars etc.
     kinds = [('min>max', {'min_iter': 3, 'max_iter': 2}, None), ('min>max+offset', {'min_iter': 3, 'max_iter': 2, 'offset': -1}, None),
              ('offset-before', {'offset': -(T + 1)}, None), ('offset-beyond', {'offset': n - T}, None),
              ('preexisting-nan', {}, 0), ('preexisting-inf', {}, 0), ('preexisting-through-offset', {'offset': 1}, 1)]
@@ -227,8 +229,8 @@ def check_rejected(case):
                 victim = ref.endogenous[case.get('victim', 0) % len(ref.endogenous)]
                 m[victim][T + nan_at] = bad
                 data[victim][T + nan_at] = bad
-            out = R.quiet_call(attempt, m.solve_t, t, **opts)
-            detail = f'{text!r} n={n} t={t} {kind} opts={opts}'
+            out = R.quiet_call(attempt, m.solve_t, rep.int(t), **rep.opts(opts))
+            detail = f'{text!r} n={n} t={t} {kind} opts={opts} (representation tape {case.get("rep")})'
             want = {'min>max': ValueError, 'min>max+offset': ValueError, 'offset-before': IndexError, 'offset-beyond': IndexError}.get(kind)
             if want is None:
                 from fsic.exceptions import SolutionError
@@ -296,7 +298,7 @@ def strategy(**kw):
         return st.fixed_dictionaries({
             'prog': G.programs(**args),
             'extra': st.integers(0, 4),
-            'victim': st.integers(0, 2), 'origin': st.sampled_from([100, 0, 0, -1, -2]),
+            'victim': st.integers(0, 2), 'origin': st.sampled_from([100, 0, 0, -1, -2]), 'rep': tapes(),
             'bases': st.lists(st.lists(st.sampled_from([1.0, 2.0, 0.5, 4.0, 3.0, 0.25, 1.5]), min_size=2, max_size=4), min_size=1, max_size=3),
         })
     return make
